@@ -146,6 +146,14 @@ def run(tier, seed, t0):
                 exc, res = observe(lambda: factory.permutation(list(p), dom), names)
                 rows.append({"cls": cls, "kind": "perm", "how": "permutation", "lt": [], "rt": [], "perm": p,
                              "dom": proj_ty(dom, names), "exc": exc, "res": res})
+            for p, m in (([0, 0], 1), ([1, 0, 0, 1], 2), ([0, 1, 1], 2), ([2, 0, 1, 0], 3), ([0, 0, 0], 1), ([1, 0, 1, 0], 2)):
+                # longer than the domain, repeated entries, distinct values = range(len(dom)): still no permutation
+                dom = mk(m, 0)
+                for how in ("permutation", "permute"):
+                    fn = (lambda: factory.permutation(list(p), dom)) if how == "permutation" else (lambda: factory.id(dom).permute(*p))
+                    exc, res = observe(fn, names)
+                    rows.append({"cls": cls, "kind": "perm", "how": how, "lt": [], "rt": [], "perm": p,
+                                 "dom": proj_ty(dom, names), "exc": exc, "res": res})
             for n, m in ((2, 3), (3, 2), (0, 1), (1, 0)):
                 p, dom = list(range(n))[::-1], mk(m, 0)
                 exc, res = observe(lambda: factory.permutation(list(p), dom), names)
